@@ -1,5 +1,5 @@
 (* C11 - left alone, Wheatley rings at exactly the configured peal speed and gap. *)
-From Wh Require Import Prelude Permute PN Gens Rhythm RegressP TimingP.
+From Wh Require Import Prelude Permute PN Gens Complib Tower Rhythm PyStr Sys RegressP TimingP CallsTimeP.
 From Coq Require Import NArith ZArith QArith.
 Local Open Scope Q_scope.
 
@@ -58,3 +58,10 @@ Theorem C11_cli_speed_and_gap : forall c cfg, console_cfg c = Ok cfg ->
   parse_peal_speed (cl_peal c) = Ok (bc_peal cfg) /\ bc_gap cfg = cl_gap c /\ bc_inertia cfg = cl_inertia c
   /\ bc_max cfg = cl_max c /\ bc_min cfg = Nat.min 4 (cl_max c).
 Proof. exact speed_and_gap_passed_on. Qed.
+
+(* making the calls of a row - however many it carries - takes no time and touches neither the rhythm nor the
+   Bot: the blow that follows is waited for from the same instant and on the same line *)
+Theorem C11_calls_take_no_time : forall cs w,
+  w_now (make_calls w cs) = w_now w /\ w_rhythm (make_calls w cs) = w_rhythm w /\ w_bot (make_calls w cs) = w_bot w
+  /\ w_tower (make_calls w cs) = w_tower w.
+Proof. exact make_calls_take_no_time. Qed.
